@@ -3,15 +3,16 @@
 # Like try_seeded.sh, but leaves /repo alone: the change is applied to a scratch worktree under /tmp and the checks are
 # pointed at it with PYTHONPATH (the editable finder of /venv comes after sys.path).  For use while something else needs /repo clean.
 D="$1"; shift
+VERIF="$(cd "$(dirname "$0")/.." && pwd)"
 WT=/tmp/wt_seeded_$$
 git -C /repo worktree add -q --detach "$WT" HEAD || exit 2
 trap 'git -C /repo worktree remove --force "$WT"; rm -rf "$WT"' EXIT
 DEMO=$(ls "$D"/demo_*.py | head -1)
-export PYTHONHASHSEED=0 NUMBA_CACHE_DIR=/verif/.work/numba_cache_wt VERIF_REPO="$WT"
+export PYTHONHASHSEED=0 NUMBA_CACHE_DIR="$VERIF/.work/numba_cache_wt" VERIF_REPO="$WT"
 echo "== demo on the unchanged tree"; PYTHONPATH="$WT" /venv/bin/python "$DEMO" > /tmp/demo_clean_$$.out 2>&1; echo "exit=$?"; tail -2 /tmp/demo_clean_$$.out
 git -C "$WT" apply "$D/patch.diff" || { echo "patch does not apply"; exit 2; }
 echo "== demo with the change"; PYTHONPATH="$WT" /venv/bin/python "$DEMO" > /tmp/demo_mut_$$.out 2>&1; echo "exit=$?"; tail -3 /tmp/demo_mut_$$.out
 for P in "$@"; do
   echo "== check $P with the change"
-  ( cd /verif && PYTHONPATH="$WT" ./check "$P" --tier quick > /tmp/check_$P.out 2>&1; echo "exit=$?"; grep -c "^VIOLATION" /tmp/check_$P.out; grep "^VIOLATION" /tmp/check_$P.out | head -3; tail -1 /tmp/check_$P.out )
+  ( cd "$VERIF" && PYTHONPATH="$WT" ./check "$P" --tier quick > /tmp/check_${P}_$$.out 2>&1; echo "exit=$?"; grep -c "^VIOLATION" /tmp/check_${P}_$$.out; grep "^VIOLATION" /tmp/check_${P}_$$.out | head -3; tail -1 /tmp/check_${P}_$$.out )
 done
